@@ -66,6 +66,32 @@ def sign_rules(P, chk):
                 table[lab] = ({1}, src)
         ok = table.get(("Credit",)) == ({0}, True) and table.get(("Debit",)) == ({1}, True)
         detail = "value by indicator: %s" % {str(k): v for k, v in table.items()}
+        if not ok:
+            # the same table read off the enumerated paths (covers `let neg = matches!(cd, Debit); if neg { -v } else { v }`)
+            t2 = {}
+            try:
+                paths = mir.enumerate_paths(b, limit=2000)
+            except mir.TooManyPaths:
+                paths = []
+            for p in paths:
+                lab = None
+                for a in p.atoms:
+                    if a.kind == "variant" and len(a.label) == 1 and any(q.is_param(r, "credit_or_debit") for r in a.subject):
+                        lab = a.label[0]
+                pb = mir.path_body(b, p.blocks)
+                ag = [x for i_ in pb.live_blocks() for x in pb.blocks[i_]["stmts"]
+                      if x["k"] == "assign" and x["rv"]["k"] == "aggregate" and norm(x["rv"].get("adt") or "") == "okane::import::amount::OwnedAmount"]
+                if len(ag) != 1 or lab is None:
+                    t2 = None
+                    break
+                fv = {x["name"]: x["op"] for x in ag[0]["rv"]["fields"]}["value"]
+                rs = prov(pb, fv)
+                neg = set(sum(1 for v in r.via if v == "neg") % 2 for r in rs)
+                src = bool(rs) and all(q.is_param(r, "self", ("value",)) for r in rs)
+                t2.setdefault(lab, set()).add((tuple(sorted(neg)), src))
+            if t2 is not None and t2.get("Credit") == {((0,), True)} and t2.get("Debit") == {((1,), True)}:
+                ok = True
+                detail = "value by indicator (per path): %s" % {k: sorted(v) for k, v in t2.items()}
         okc = q.all_roots(b, f["commodity"], lambda r: q.is_param(r, "self", ("currency",)))
         ok = ok and okc
     chk.require(ok, R_SIGN, "Amount::to_data|Credit -> +value, Debit -> -value", b.loc(), detail, "match { Credit => self.value, Debit => -self.value }")
